@@ -78,13 +78,48 @@ theorem C13_silent (R : Nat) (s : WD) (hp : s.pc = .writing 0) (hd : s.dwac = 0)
 theorem C13_failure_dwa_ignored (s : WD) (hg : s.gone = false) : s.step .dwaFail = some s := by
   simp [WD.step, hg]
 
-/-- every `dwr()` call starts without a left-over ack (drained), so an answer that was late for
-    the previous cycle cannot be mistaken for an answer to this one before it is even sent -/
-theorem C13_drained (R : Nat) (es : List WdEv) (s s' : WD) (_h : (cur R).run es = some s)
-    (hs : s.step .wdTimer = some s') (hdr : s.drain = true) : s'.dwac = 0 ∧ s'.pc = .writing 0 ∧ s'.answered = false := by
+/-- every `dwr()` call starts without a left-over ack: the channel holds at most one value
+    (its regenerated capacity) and `dwr()` discards one before its first DWR - so an answer that
+    was late for the previous cycle, or one of several answers to the same DWR, cannot be mistaken
+    for an answer to a request that has not been sent yet -/
+theorem C13_drained (R : Nat) (es : List WdEv) (s s' : WD) (h : (cur R).run es = some s)
+    (hs : s.step .wdTimer = some s') : s'.dwac = 0 ∧ s'.pc = .writing 0 ∧ s'.answered = false := by
+  have inv := WdInv_run es _ s (cur_inv R) h
+  have hle := inv.dwacLe
+  have hcap : s.cap = 1 := by
+    have : ∀ (es : List WdEv) (a b : WD), a.run es = some b → b.cap = a.cap ∧ b.drain = a.drain := by
+      intro es
+      induction es with
+      | nil => intro a b hr; simp [WD.run] at hr; subst hr; exact ⟨rfl, rfl⟩
+      | cons e es ih =>
+        intro a b hr
+        simp only [WD.run] at hr
+        cases hst : a.step e with
+        | none => simp [hst] at hr
+        | some a1 =>
+          simp only [hst] at hr
+          obtain ⟨i1, i2⟩ := ih a1 b hr
+          rw [i1, i2]
+          cases e <;> simp only [WD.step] at hst <;> (repeat' split at hst) <;> simp_all <;> (try (subst hst; exact ⟨rfl, rfl⟩))
+    rw [(this es _ s h).1]; show Gen.capDwac = 1; decide
+  have hdr : s.drain = true := by
+    have : ∀ (es : List WdEv) (a b : WD), a.run es = some b → b.drain = a.drain := by
+      intro es
+      induction es with
+      | nil => intro a b hr; simp [WD.run] at hr; subst hr; rfl
+      | cons e es ih =>
+        intro a b hr
+        simp only [WD.run] at hr
+        cases hst : a.step e with
+        | none => simp [hst] at hr
+        | some a1 =>
+          simp only [hst] at hr
+          rw [ih a1 b hr]
+          cases e <;> simp only [WD.step] at hst <;> (repeat' split at hst) <;> simp_all <;> (try (subst hst; rfl))
+    rw [this es _ s h]; show Gen.dwrDrainsFirst = true; decide
   simp only [WD.step] at hs
   split at hs
-  · cases hs; simp [hdr]
+  · cases hs; simp [hdr]; omega
   · cases hs
 
 /-- The model distinguishes: with an unbuffered `dwac` (the code before the repair 0b4f180) a
